@@ -94,10 +94,25 @@ def gen_history(rng, header, nops, malformed=0.2, stats=None):
         if family in ("fleet", "slot"): op.append(0)
         return tuple(op)
 
+    # belt families: per-history profile, so that items actually travel to the exit and pile up there
+    belt = family in ("slot", "cbelt")
+    extra_ev = rng.choice([0.0, 0.2, 0.35, 0.5]) if belt else 0.0
+    starve_exit = belt and rng.random() < 0.4          # few retrievals: items wait at the exit
+    if belt and rng.random() < 0.5: malformed = 0.04
+
+    def kernel_move():
+        nt = impl.next_time(); nowt = f2t(impl.env.now)
+        d = rng.choice(ADVS)
+        if nt is not None and (nt <= nowt or rng.random() < 0.55): return ("ev",)
+        if nt is not None: return ("adv", min(d, nt - nowt))
+        return ("adv", d)
+
     for _ in range(nops):
         r = rng.random()
         op = None
-        if r < malformed:
+        if belt and rng.random() < extra_ev:
+            op = kernel_move()
+        elif r < malformed:
             m = rng.randrange(9)
             t = pick()
             if m == 0 and t:      # right token, wrong actor
@@ -132,6 +147,11 @@ def gen_history(rng, header, nops, malformed=0.2, stats=None):
             r = rng.random()
             if r < 0.18:
                 op = ("rp", rng.randrange(nact), rng.choice(PRIOS))
+            elif starve_exit and 0.18 <= r < 0.74 and not (0.38 <= r < 0.58) and rng.random() < 0.75:
+                op = kernel_move() if rng.random() < 0.6 else None
+                if op is None:
+                    t = pick("put", "granted")
+                    op = put_op(t.actor, t.tid) if t else ("rp", rng.randrange(nact), rng.choice(PRIOS))
             elif r < 0.38:
                 op = ("rg", rng.randrange(nact), rng.choice(PRIOS), rng.choice(FILTS) if is_filter else "always")
             elif r < 0.58:
@@ -143,13 +163,9 @@ def gen_history(rng, header, nops, malformed=0.2, stats=None):
             elif r < 0.80:
                 t = pick(state="pending") if rng.random() < .5 else pick(state="granted")
                 if t: op = ("cp" if t.side == "put" else "cg", t.tid)
-            elif family in ("fleet", "slot") and r < 0.96:
+            elif family in ("fleet", "slot", "cbelt") and r < 0.96:
                 # event by event: either the next kernel event, or a clock move that stops at (or before) it
-                nt = impl.next_time(); nowt = f2t(impl.env.now)
-                d = rng.choice(ADVS)
-                if nt is not None and (nt <= nowt or rng.random() < 0.55): op = ("ev",)
-                elif nt is not None: op = ("adv", min(d, nt - nowt))
-                else: op = ("adv", d)
+                op = kernel_move()
             elif r < 0.90:
                 op = ("adv", rng.choice(ADVS))
             elif r < 0.94:
@@ -163,7 +179,7 @@ def gen_history(rng, header, nops, malformed=0.2, stats=None):
             else:
                 op = ("stat",)
         if op is None:
-            op = ("settle",) if family not in ("fleet", "slot") else ("ev",)
+            op = ("settle",) if family not in ("fleet", "slot", "cbelt") else ("ev",)
         line = impl.do(op)
         ops.append(op); lines.append(line)
         # track token states from the implementation's answers
